@@ -7,6 +7,8 @@
                   equilibration, KKT matrix, data maps, `dsigns`, ordering
     solve.init    state after `default_start()`: iterate, constant-rhs solution `(x2, z2)`
     solve.full    the whole `solve()`: every pass of the loop + the returned solution
+    solve.twice   `solve()` twice on the same object: the record of the second solve, the
+                  figures of the first one, and whether both returned the same bits
 
   Settings keys: `maxiter tols rtols msf minterm eq eqit eqmin eqmax sreg sregc sregp dyneps
   dyndelta ir irrel irabs irit irstop presolve inf maxval`.
@@ -152,6 +154,29 @@ def fmtFull (r : SolveResult Float) (perm : Array Nat) : String :=
   s!"imu={fmtFloat r.S.st.infoMu} isig={fmtFloat r.S.st.infoSigma} istep={fmtFloat r.S.st.infoStepLength} " ++
   s!"perm={fmtNats perm} prov={rb} rb={rb}"
 
+/-- bitwise equality of two float arrays (NaN = NaN) -/
+def bitsEq (a b : Array Float) : Bool :=
+  a.size == b.size && (a.toList.zip b.toList).all (fun p => p.1.toBits == p.2.toBits || (p.1.isNaN && p.2.isNaN))
+
+def optBitsEq (a b : Option Float) : Bool :=
+  match a, b with
+  | some x, some y => x.toBits == y.toBits || (x.isNaN && y.isNaN)
+  | none, none => true
+  -- `none` stands for NaN
+  | some x, none => x.isNaN
+  | none, some y => y.isNaN
+
+/-- second solve on the same object: its full record, the figures of the first solve and
+whether the two returned the same bits -/
+def fmtTwice (r1 r2 : SolveResult Float) (perm : Array Nat) : String :=
+  let (a, b) := (r1.S.solution, r2.S.solution)
+  let same := a.status.toNat == b.status.toNat && a.iterations == b.iterations && bitsEq a.x b.x
+    && bitsEq a.s b.s && bitsEq a.z b.z && optBitsEq a.obj_val b.obj_val
+    && optBitsEq a.obj_val_dual b.obj_val_dual && optBitsEq a.r_prim b.r_prim && optBitsEq a.r_dual b.r_dual
+  fmtFull r2 perm ++
+  s!" status1={a.status.toNat} iterations1={a.iterations} x1={fmtFloats a.x} s1={fmtFloats a.s} " ++
+  s!"z1={fmtFloats a.z} same={if same then 1 else 0}"
+
 def handle (ch : String) (kv : KV) : String :=
   match ch with
   | "solve.setup" =>
@@ -170,6 +195,15 @@ def handle (ch : String) (kv : KV) : String :=
     | some r => fmtME (fun res => fmtFull res r.perm) (do
         let S ← Solver.new r.P r.q r.A r.b r.cones r.st r.perm
         S.solve r.st)
+  | "solve.twice" =>
+    -- `solve()` twice on the same object: the record is the one of the second solve
+    match parseRequest kv with
+    | none => "bad-request"
+    | some r => fmtME (fun p => fmtTwice p.1 p.2 r.perm) (do
+        let S ← Solver.new r.P r.q r.A r.b r.cones r.st r.perm
+        let r1 ← S.solve r.st
+        let r2 ← r1.S.solve r.st
+        pure (r1, r2))
   | _ => "unknown-channel"
 
 end SolverDriver
